@@ -1,0 +1,275 @@
+//go:build verif
+
+package nfsv4
+
+import (
+	"github.com/buildbarn/bb-remote-execution/pkg/filesystem/virtual"
+	"github.com/buildbarn/go-xdr/pkg/protocols/nfsv4"
+)
+
+// This file only exists in builds with the "verif" tag. It provides a
+// read-only dump of the bookkeeping of an NFSv4.0 program, so that it
+// can be compared against a formal model. None of the functions below
+// modify any state. Entries are reported in map iteration order, except
+// for the idle and unused lists, which are reported in list order; the
+// caller is expected to sort.
+
+// Verif40Confirmation is the dump of a clientConfirmationState.
+type Verif40Confirmation struct {
+	LongID         string
+	ClientVerifier nfsv4.Verifier4
+	ShortClientID  uint64
+	ServerVerifier nfsv4.Verifier4
+	LastSeenZero   bool
+	LastSeenNanos  int64
+	HoldCount      int
+	InIdleList     bool
+	Confirmed      bool
+}
+
+// Verif40OpenOwner is the dump of an nfs40OpenOwnerState.
+type Verif40OpenOwner struct {
+	ShortClientID    uint64
+	Key              string
+	Confirmed        bool
+	LastSeqID        uint32
+	LastResponse     interface{}
+	HasClosedFile    bool
+	ClosedFileOther  [8]byte
+	InTransaction    bool
+	InUnusedList     bool
+	LastUsedZero     bool
+	LastUsedNanos    int64
+	FilesByHandleLen int
+}
+
+// Verif40OpenOwnerFile is the dump of an nfs40OpenOwnerFileState.
+type Verif40OpenOwnerFile struct {
+	Other             [8]byte
+	SeqID             uint32
+	ShortClientID     uint64
+	OwnerKey          string
+	Handle            []byte
+	ShareAccess       uint32
+	Readers           int
+	Writers           int
+	InFilesByHandle   bool
+	LockOwnerFilesLen int
+}
+
+// Verif40LockOwner is the dump of an nfs40LockOwnerState.
+type Verif40LockOwner struct {
+	ShortClientID uint64
+	Key           string
+	LastSeqID     uint32
+	LastResponse  interface{}
+	FilesLen      int
+	IndicesOK     bool
+}
+
+// Verif40LockOwnerFile is the dump of an nfs40LockOwnerFileState.
+type Verif40LockOwnerFile struct {
+	Other             [8]byte
+	SeqID             uint32
+	ShortClientID     uint64
+	LockOwnerKey      string
+	OpenOwnerFile     [8]byte
+	ShareAccess       uint32
+	LockCount         int
+	InLockOwnerFiles  bool
+	InOpenOwnerFile   bool
+	LockOwnerIsLinked bool
+}
+
+// Verif40Lock is the dump of one entry of an opened file's lock table.
+type Verif40Lock struct {
+	Start, End    uint64
+	ShortClientID uint64
+	OwnerKey      string
+	Exclusive     bool
+	// OwnerIsCurrent is true if the lock's owner pointer refers to
+	// the lock-owner object that is currently registered under
+	// (ShortClientID, OwnerKey).
+	OwnerIsCurrent bool
+}
+
+// Verif40PoolFile is the dump of an OpenedFile.
+type Verif40PoolFile struct {
+	Handle   []byte
+	UseCount int
+	Locks    []Verif40Lock
+}
+
+// Verif40OwnerRef identifies an open-owner.
+type Verif40OwnerRef struct {
+	ShortClientID uint64
+	Key           string
+}
+
+// Verif40Dump is the dump of an nfs40Program and its OpenedFilesPool.
+type Verif40Dump struct {
+	NowZero        bool
+	NowNanos       int64
+	ClientsLen     int
+	Confirmations  []Verif40Confirmation
+	IdleList       []uint64
+	OpenOwners     []Verif40OpenOwner
+	UnusedList     []Verif40OwnerRef
+	OpenOwnerFiles []Verif40OpenOwnerFile
+	LockOwners     []Verif40LockOwner
+	LockOwnerFiles []Verif40LockOwnerFile
+	PoolFiles      []Verif40PoolFile
+}
+
+// VerifDump40 returns a dump of the state of an NFSv4.0 program
+// created using NewNFS40Program(). It returns nil for other programs.
+func VerifDump40(program nfsv4.Nfs4Program) *Verif40Dump {
+	p, ok := program.(*nfs40Program)
+	if !ok {
+		return nil
+	}
+	d := &Verif40Dump{}
+	p.lock.Lock()
+	defer p.lock.Unlock()
+
+	d.NowZero = p.now.IsZero()
+	if !d.NowZero {
+		d.NowNanos = p.now.UnixNano()
+	}
+	d.ClientsLen = len(p.clientsByLongID)
+	inIdle := map[*clientConfirmationState]bool{}
+	for c := p.idleClientConfirmations.nextIdle; c != &p.idleClientConfirmations; c = c.nextIdle {
+		inIdle[c] = true
+		d.IdleList = append(d.IdleList, c.key.shortClientID)
+	}
+	inUnused := map[*nfs40OpenOwnerState]bool{}
+	for o := p.unusedOpenOwners.nextUnused; o != &p.unusedOpenOwners; o = o.nextUnused {
+		inUnused[o] = true
+		d.UnusedList = append(d.UnusedList, Verif40OwnerRef{
+			ShortClientID: o.confirmedClient.confirmation.key.shortClientID,
+			Key:           o.key,
+		})
+	}
+
+	losByOwner := map[*nfsv4.LockOwner4]*nfs40LockOwnerState{}
+	for _, ccs := range p.clientConfirmationsByShortID {
+		confirmed := ccs.client.confirmed != nil && ccs.client.confirmed.confirmation == ccs
+		vc := Verif40Confirmation{
+			LongID:         ccs.client.longID,
+			ClientVerifier: ccs.clientVerifier,
+			ShortClientID:  ccs.key.shortClientID,
+			ServerVerifier: ccs.key.serverVerifier,
+			LastSeenZero:   ccs.lastSeen.IsZero(),
+			HoldCount:      ccs.holdCount,
+			InIdleList:     inIdle[ccs],
+			Confirmed:      confirmed,
+		}
+		if !vc.LastSeenZero {
+			vc.LastSeenNanos = ccs.lastSeen.UnixNano()
+		}
+		d.Confirmations = append(d.Confirmations, vc)
+		if !confirmed {
+			continue
+		}
+		shortID := ccs.key.shortClientID
+		for _, oos := range ccs.client.confirmed.openOwners {
+			vo := Verif40OpenOwner{
+				ShortClientID:    shortID,
+				Key:              oos.key,
+				Confirmed:        oos.confirmed,
+				LastSeqID:        oos.lastSeqID,
+				InTransaction:    oos.currentTransactionWait != nil,
+				InUnusedList:     inUnused[oos],
+				LastUsedZero:     oos.lastUsed.IsZero(),
+				FilesByHandleLen: len(oos.filesByHandle),
+			}
+			if !vo.LastUsedZero {
+				vo.LastUsedNanos = oos.lastUsed.UnixNano()
+			}
+			if lr := oos.lastResponse; lr != nil {
+				vo.LastResponse = lr.response
+				if lr.closedFile != nil {
+					vo.HasClosedFile = true
+					vo.ClosedFileOther = lr.closedFile.stateID.other
+				}
+			}
+			d.OpenOwners = append(d.OpenOwners, vo)
+		}
+		for key, los := range ccs.client.confirmed.lockOwners {
+			losByOwner[&los.owner] = los
+			indicesOK := true
+			for i, lofs := range los.files {
+				if lofs == nil || lofs.lockOwnerIndex != i || lofs.lockOwner != los {
+					indicesOK = false
+				}
+			}
+			d.LockOwners = append(d.LockOwners, Verif40LockOwner{
+				ShortClientID: shortID,
+				Key:           key,
+				LastSeqID:     los.lastSeqID,
+				LastResponse:  los.lastResponse,
+				FilesLen:      len(los.files),
+				IndicesOK:     indicesOK && string(los.owner.Owner) == key && los.owner.Clientid == shortID,
+			})
+		}
+	}
+	for other, oofs := range p.openOwnerFilesByOther {
+		vf := Verif40OpenOwnerFile{
+			Other:             other,
+			SeqID:             oofs.stateID.seqID,
+			Handle:            oofs.openedFile.GetHandle(),
+			ShareAccess:       uint32(oofs.shareAccess),
+			Readers:           int(oofs.shareCount.readers),
+			Writers:           int(oofs.shareCount.writers),
+			LockOwnerFilesLen: len(oofs.lockOwnerFiles),
+		}
+		if oos := oofs.openOwner; oos != nil {
+			vf.ShortClientID = oos.confirmedClient.confirmation.key.shortClientID
+			vf.OwnerKey = oos.key
+			vf.InFilesByHandle = oos.filesByHandle[string(oofs.openedFile.GetHandle())] == oofs && other == oofs.stateID.other
+		}
+		d.OpenOwnerFiles = append(d.OpenOwnerFiles, vf)
+	}
+	for other, lofs := range p.lockOwnerFilesByOther {
+		los := lofs.lockOwner
+		vl := Verif40LockOwnerFile{
+			Other:             other,
+			SeqID:             lofs.stateID.seqID,
+			ShortClientID:     los.confirmedClient.confirmation.key.shortClientID,
+			LockOwnerKey:      string(los.owner.Owner),
+			OpenOwnerFile:     lofs.openOwnerFile.stateID.other,
+			ShareAccess:       uint32(lofs.shareAccess),
+			LockCount:         lofs.lockCount,
+			InOpenOwnerFile:   lofs.openOwnerFile.lockOwnerFiles[los] == lofs && other == lofs.stateID.other,
+			LockOwnerIsLinked: los.confirmedClient.lockOwners[string(los.owner.Owner)] == los,
+		}
+		if i := lofs.lockOwnerIndex; i >= 0 && i < len(los.files) && los.files[i] == lofs {
+			vl.InLockOwnerFiles = true
+		}
+		d.LockOwnerFiles = append(d.LockOwnerFiles, vl)
+	}
+
+	ofp := p.openedFilesPool
+	ofp.lock.RLock()
+	defer ofp.lock.RUnlock()
+	for _, of := range ofp.filesByHandle {
+		vp := Verif40PoolFile{Handle: of.handle, UseCount: int(of.useCount)}
+		of.locksLock.RLock()
+		for _, l := range of.locks.VerifEntries() {
+			vk := Verif40Lock{
+				Start:     l.Start,
+				End:       l.End,
+				Exclusive: l.Type == virtual.ByteRangeLockTypeLockedExclusive,
+			}
+			if l.Owner != nil {
+				vk.ShortClientID = l.Owner.Clientid
+				vk.OwnerKey = string(l.Owner.Owner)
+				_, vk.OwnerIsCurrent = losByOwner[l.Owner]
+			}
+			vp.Locks = append(vp.Locks, vk)
+		}
+		of.locksLock.RUnlock()
+		d.PoolFiles = append(d.PoolFiles, vp)
+	}
+	return d
+}
